@@ -235,6 +235,17 @@ func (p *c19) build(seed uint64, tier string) []C19Scenario {
 					s.Conn = sim.ConnFaults{SetDeadlineFailNth: n}
 					add(s)
 				}
+				// the n-th write of the client fails (the peer is gone and the kernel says so at
+				// exactly that command: EHLO ... QUIT)
+				for n := 1; n <= 14; n++ {
+					if tier != "thorough" && (idx+n)%3 != 0 {
+						continue
+					}
+					s := base()
+					s.Step = fmt.Sprintf("write-fails#%d", n)
+					s.Conn = sim.ConnFaults{WriteFailNth: n}
+					add(s)
+				}
 				// the caller cancels its context (it does not expire) at some instant after the
 				// connection was made, while every reply of the server is positive
 				for _, us := range []int{150, 400, 800, 1500, 2500} {
